@@ -150,6 +150,21 @@ fn check(t: &mut Tape, ctx: &mut Ctx) -> CheckResult {
     let lsp = LOH::spider(sv::ff(f.d.s.clone(), nn), sv::ff(f.d.t.clone(), nn), obs(&w)).ok_or_else(|| ctx.fail("constructors-agree", "lax spider rejected in-range legs"))?;
     let ssp = sv::SOH::spider(sv::ff(f.d.s.clone(), nn), sv::ff(f.d.t.clone(), nn), sv::ty(&w)).ok_or_else(|| ctx.fail("constructors-agree", "strict spider rejected in-range legs"))?;
     require_iso(ctx, "constructors-agree", &strictify(ctx, &lsp, "strict(lax spider)")?, &wf(ctx, "strictify-wf", sv::from_strict(&ssp), "spider")?, "strict(lax spider) vs strict spider")?;
+    // spider with the declared codomain of each leg planted independently below / at / above |w|
+    // (entries stay in range; derived from the case, no extra choices): lax and strict accept
+    // the same legs
+    {
+        let plant = |leg: &[usize], k: usize| -> usize {
+            let need = leg.iter().max().map_or(0, |m| m + 1);
+            (nn + k % 3).saturating_sub(1).max(need)
+        };
+        let (cs, ct) = (plant(&f.d.s, f.d.s.len() + f.d.edges.len()), plant(&f.d.t, f.d.t.len() + nn / 2));
+        ctx.class_if(cs != nn || ct != nn, "spider-leg-codomain-off");
+        let l = LOH::spider(sv::ff(f.d.s.clone(), cs), sv::ff(f.d.t.clone(), ct), obs(&w));
+        let s = sv::SOH::spider(sv::ff(f.d.s.clone(), cs), sv::ff(f.d.t.clone(), ct), sv::ty(&w));
+        ensure!(ctx, l.is_some() == s.is_some(), "constructors-agree", "spider with leg codomains {cs}, {ct} over {nn} nodes: lax {} but strict {}", if l.is_some() { "accepts" } else { "refuses" }, if s.is_some() { "accepts" } else { "refuses" });
+        ensure!(ctx, s.is_some() == (cs == nn && ct == nn), "constructors-agree", "strict spider with leg codomains {cs}, {ct} over {nn} nodes {}", if s.is_some() { "accepted" } else { "refused" });
+    }
     // half-spider (derived constructor: the target leg is the identity on all nodes)
     {
         use open_hypergraphs::category::Spider;
